@@ -37,6 +37,14 @@ SPEC = {
     ],
 }
 
+CLAIM = {
+        "category": "proof",
+        "text": "Lean theorems lev_script_transforms, lev_cost_eq_distance, lev_minimal hold for ALL pairs of token sequences of the model `lev`, a line-by-line mirror of Recovery::levenshtein_distance (DP table with the code's tie order, backtracking, early returns). The model is tied to the code by an exact differential run (distance and script) over all pairs over {0,1,2} up to length 4/5 plus random pairs, and every implementation reply is also fed to the verified oracle (applyOps, cost, proved-minimal distance).",
+        "design_ref": "DESIGN.md §6 C31",
+        "note": "Trusted: Lean kernel (axioms propext, Quot.sound only), the hand-written model's faithfulness as observed by the differential run, the harness and orchestrator. u16 token types modelled as Nat.",
+        "technique": "Lean 4 proof over hand-written model + differential correspondence check",
+    }
+
 
 def run(ctx):
     return common.standard_flow(ctx, SPEC)
